@@ -10,9 +10,9 @@ Extract/C06x.vos Extract/C06x.vok Extract/C06x.required_vos: Extract/C06x.v Mode
 Extract/C07x.vo Extract/C07x.glob Extract/C07x.v.beautified Extract/C07x.required_vo: Extract/C07x.v Model/Io.vo Model/Cycle.vo Spec/C07Judge.vo
 Extract/C07x.vio: Extract/C07x.v Model/Io.vio Model/Cycle.vio Spec/C07Judge.vio
 Extract/C07x.vos Extract/C07x.vok Extract/C07x.required_vos: Extract/C07x.v Model/Io.vos Model/Cycle.vos Spec/C07Judge.vos
-Extract/C09x.vo Extract/C09x.glob Extract/C09x.v.beautified Extract/C09x.required_vo: Extract/C09x.v Model/Restart.vo Spec/C09Judge.vo
-Extract/C09x.vio: Extract/C09x.v Model/Restart.vio Spec/C09Judge.vio
-Extract/C09x.vos Extract/C09x.vok Extract/C09x.required_vos: Extract/C09x.v Model/Restart.vos Spec/C09Judge.vos
+Extract/C09x.vo Extract/C09x.glob Extract/C09x.v.beautified Extract/C09x.required_vo: Extract/C09x.v Model/Restart.vo Model/RestartTasks.vo Spec/C09Judge.vo
+Extract/C09x.vio: Extract/C09x.v Model/Restart.vio Model/RestartTasks.vio Spec/C09Judge.vio
+Extract/C09x.vos Extract/C09x.vok Extract/C09x.required_vos: Extract/C09x.v Model/Restart.vos Model/RestartTasks.vos Spec/C09Judge.vos
 Extract/C10x.vo Extract/C10x.glob Extract/C10x.v.beautified Extract/C10x.required_vo: Extract/C10x.v Model/RetainCodec.vo Model/CrashFs.vo
 Extract/C10x.vio: Extract/C10x.v Model/RetainCodec.vio Model/CrashFs.vio
 Extract/C10x.vos Extract/C10x.vok Extract/C10x.required_vos: Extract/C10x.v Model/RetainCodec.vos Model/CrashFs.vos
@@ -64,6 +64,9 @@ Model/Resource.vos Model/Resource.vok Model/Resource.required_vos: Model/Resourc
 Model/Restart.vo Model/Restart.glob Model/Restart.v.beautified Model/Restart.required_vo: Model/Restart.v 
 Model/Restart.vio: Model/Restart.v 
 Model/Restart.vos Model/Restart.vok Model/Restart.required_vos: Model/Restart.v 
+Model/RestartTasks.vo Model/RestartTasks.glob Model/RestartTasks.v.beautified Model/RestartTasks.required_vo: Model/RestartTasks.v 
+Model/RestartTasks.vio: Model/RestartTasks.v 
+Model/RestartTasks.vos Model/RestartTasks.vok Model/RestartTasks.required_vos: Model/RestartTasks.v 
 Model/RetainCodec.vo Model/RetainCodec.glob Model/RetainCodec.v.beautified Model/RetainCodec.required_vo: Model/RetainCodec.v 
 Model/RetainCodec.vio: Model/RetainCodec.v 
 Model/RetainCodec.vos Model/RetainCodec.vok Model/RetainCodec.required_vos: Model/RetainCodec.v 
@@ -97,9 +100,9 @@ Proofs/C05Proofs.vos Proofs/C05Proofs.vok Proofs/C05Proofs.required_vos: Proofs/
 Proofs/C06Proofs.vo Proofs/C06Proofs.glob Proofs/C06Proofs.v.beautified Proofs/C06Proofs.required_vo: Proofs/C06Proofs.v Model/Sched.vo Spec/C06.vo
 Proofs/C06Proofs.vio: Proofs/C06Proofs.v Model/Sched.vio Spec/C06.vio
 Proofs/C06Proofs.vos Proofs/C06Proofs.vok Proofs/C06Proofs.required_vos: Proofs/C06Proofs.v Model/Sched.vos Spec/C06.vos
-Proofs/C09Proofs.vo Proofs/C09Proofs.glob Proofs/C09Proofs.v.beautified Proofs/C09Proofs.required_vo: Proofs/C09Proofs.v Model/Restart.vo
-Proofs/C09Proofs.vio: Proofs/C09Proofs.v Model/Restart.vio
-Proofs/C09Proofs.vos Proofs/C09Proofs.vok Proofs/C09Proofs.required_vos: Proofs/C09Proofs.v Model/Restart.vos
+Proofs/C09Proofs.vo Proofs/C09Proofs.glob Proofs/C09Proofs.v.beautified Proofs/C09Proofs.required_vo: Proofs/C09Proofs.v Model/Restart.vo Model/RestartTasks.vo
+Proofs/C09Proofs.vio: Proofs/C09Proofs.v Model/Restart.vio Model/RestartTasks.vio
+Proofs/C09Proofs.vos Proofs/C09Proofs.vok Proofs/C09Proofs.required_vos: Proofs/C09Proofs.v Model/Restart.vos Model/RestartTasks.vos
 Proofs/C10Proofs.vo Proofs/C10Proofs.glob Proofs/C10Proofs.v.beautified Proofs/C10Proofs.required_vo: Proofs/C10Proofs.v Model/RetainCodec.vo Model/CrashFs.vo
 Proofs/C10Proofs.vio: Proofs/C10Proofs.v Model/RetainCodec.vio Model/CrashFs.vio
 Proofs/C10Proofs.vos Proofs/C10Proofs.vok Proofs/C10Proofs.required_vos: Proofs/C10Proofs.v Model/RetainCodec.vos Model/CrashFs.vos
@@ -157,9 +160,9 @@ Properties/C07.vos Properties/C07.vok Properties/C07.required_vos: Properties/C0
 Properties/C08.vo Properties/C08.glob Properties/C08.v.beautified Properties/C08.required_vo: Properties/C08.v Model/Io.vo Model/Cycle.vo Proofs/IoProofs.vo Proofs/CycleProofs.vo
 Properties/C08.vio: Properties/C08.v Model/Io.vio Model/Cycle.vio Proofs/IoProofs.vio Proofs/CycleProofs.vio
 Properties/C08.vos Properties/C08.vok Properties/C08.required_vos: Properties/C08.v Model/Io.vos Model/Cycle.vos Proofs/IoProofs.vos Proofs/CycleProofs.vos
-Properties/C09.vo Properties/C09.glob Properties/C09.v.beautified Properties/C09.required_vo: Properties/C09.v Model/Restart.vo Proofs/C09Proofs.vo
-Properties/C09.vio: Properties/C09.v Model/Restart.vio Proofs/C09Proofs.vio
-Properties/C09.vos Properties/C09.vok Properties/C09.required_vos: Properties/C09.v Model/Restart.vos Proofs/C09Proofs.vos
+Properties/C09.vo Properties/C09.glob Properties/C09.v.beautified Properties/C09.required_vo: Properties/C09.v Model/Restart.vo Model/RestartTasks.vo Proofs/C09Proofs.vo
+Properties/C09.vio: Properties/C09.v Model/Restart.vio Model/RestartTasks.vio Proofs/C09Proofs.vio
+Properties/C09.vos Properties/C09.vok Properties/C09.required_vos: Properties/C09.v Model/Restart.vos Model/RestartTasks.vos Proofs/C09Proofs.vos
 Properties/C10.vo Properties/C10.glob Properties/C10.v.beautified Properties/C10.required_vo: Properties/C10.v Model/RetainCodec.vo Model/CrashFs.vo Proofs/C10Proofs.vo
 Properties/C10.vio: Properties/C10.v Model/RetainCodec.vio Model/CrashFs.vio Proofs/C10Proofs.vio
 Properties/C10.vos Properties/C10.vok Properties/C10.required_vos: Properties/C10.v Model/RetainCodec.vos Model/CrashFs.vos Proofs/C10Proofs.vos
